@@ -5,7 +5,7 @@ use std::{
     mem,
     num::NonZeroU32,
     str::FromStr,
-    sync::Arc,
+    sync::{Arc, Mutex as SyncMutex, MutexGuard, PoisonError},
 };
 
 #[cfg(feature = "tls")]
@@ -35,6 +35,18 @@ use crate::transport::{Password, Ssh};
 
 #[cfg(feature = "junos")]
 use crate::transport::JunosLocal;
+
+/// The outstanding requests of a session, shared with its reply futures.
+///
+/// The map is only ever held for a look-up or an update, never across an `.await`, so it is
+/// guarded by a synchronous mutex: taking an asynchronous one is a suspension point of its own
+/// (under contention, or when the task's cooperative budget is used up), at which a reply future
+/// that has just taken another request's reply off the transport could be dropped with it.
+type Requests = Arc<SyncMutex<HashMap<rpc::MessageId, OutstandingRequest>>>;
+
+fn lock(requests: &Requests) -> MutexGuard<'_, HashMap<rpc::MessageId, OutstandingRequest>> {
+    requests.lock().unwrap_or_else(PoisonError::into_inner)
+}
 
 /// An identifier used by a NETCONF server to uniquely identify a session.
 #[allow(clippy::module_name_repetitions)]
@@ -76,7 +88,7 @@ pub struct Session<T: Transport> {
     transport_rx: Arc<Mutex<T::RecvHandle>>,
     context: Context,
     last_message_id: rpc::MessageId,
-    requests: Arc<Mutex<HashMap<rpc::MessageId, OutstandingRequest>>>,
+    requests: Requests,
 }
 
 /// NETCONF session state container.
@@ -236,7 +248,7 @@ impl<T: Transport> Session<T> {
             client_capabilities,
             server_capabilities,
         );
-        let requests = Arc::new(Mutex::new(HashMap::default()));
+        let requests = Arc::new(SyncMutex::new(HashMap::default()));
         Ok(Self {
             transport_tx,
             transport_rx,
@@ -293,14 +305,14 @@ impl<T: Transport> Session<T> {
         // wire, and must not be left waiting for it (and lose that reply if dropped) while the
         // send is blocked.
         #[allow(clippy::significant_drop_in_scrutinee)]
-        match self.requests.lock().await.entry(message_id) {
+        match lock(&self.requests).entry(message_id) {
             Entry::Occupied(_) => return Err(Error::MessageIdCollision { message_id }),
             Entry::Vacant(entry) => {
                 _ = entry.insert(OutstandingRequest::Pending);
             }
         };
         if let Err(err) = request.send(&mut *self.transport_tx.lock().await).await {
-            _ = self.requests.lock().await.remove(&message_id);
+            _ = lock(&self.requests).remove(&message_id);
             return Err(err);
         };
         let requests = self.requests.clone();
@@ -311,7 +323,7 @@ impl<T: Transport> Session<T> {
     #[tracing::instrument(skip(requests, rx), level = "debug")]
     async fn recv<O>(
         message_id: rpc::MessageId,
-        requests: Arc<Mutex<HashMap<rpc::MessageId, OutstandingRequest>>>,
+        requests: Requests,
         rx: Arc<Mutex<<T as Transport>::RecvHandle>>,
     ) -> Result<<O::Reply as IntoResult>::Ok, Error>
     where
@@ -324,9 +336,7 @@ impl<T: Transport> Session<T> {
             let mut rx_guard = rx.lock().await;
             tracing::trace!(?requests);
             tracing::debug!("checking for ready response");
-            if let Some(partial) = requests
-                .lock()
-                .await
+            if let Some(partial) = lock(&requests)
                 .get_mut(&message_id)
                 .ok_or(Error::RequestNotFound { message_id })?
                 .take()?
@@ -337,10 +347,10 @@ impl<T: Transport> Session<T> {
             };
             tracing::debug!("response to {message_id:?} not yet ready");
             let reply = rpc::PartialReply::recv(&mut *rx_guard).await?;
+            // No suspension point from here until the reply is parked: it may be another request's,
+            // and would be lost if this future were dropped while it holds it.
             #[allow(clippy::significant_drop_in_scrutinee)]
-            match requests
-                .lock()
-                .await
+            match lock(&requests)
                 .get_mut(&reply.message_id())
                 .ok_or_else(|| Error::RequestNotFound {
                     message_id: reply.message_id(),
